@@ -79,7 +79,11 @@ func c19Do(mode int) {
 	l, clk := c19state(mode)
 	offset := v.Int64("offset")
 	weight := v.Float64("weight")
-	v.Assume(!math.IsNaN(weight))
+	if mode >= 2 {
+		// the gain / integrator / frequency clauses are claimed for weights that are numbers; while the
+		// loop is starting up (modes 0, 1, restart) a NaN weight is a weight that is not above 3
+		v.Assume(!math.IsNaN(weight))
+	}
 	modeBefore, epochBefore := l.mode, l.epoch
 	t0Before, tBefore := l.t0, l.t
 	restarted := epochBefore != clk.epoch
